@@ -19,6 +19,7 @@ import (
 	"errors"
 	"fmt"
 	"math"
+	"os"
 	"strings"
 	"time"
 
@@ -341,6 +342,17 @@ func mismatchClass(in, out []pdfcpu.Bookmark) string {
 		if c > 1 {
 			dup = true
 		}
+	}
+	bs := false
+	for t := range m {
+		if strings.Contains(t, "\\") {
+			bs = true
+		}
+	}
+	if bs && sameButPages(in, out) {
+		// two different titles whose /Dest names coincide after HexLiteralToString/Unescape
+		// ("(par\\en)" and "(paren)"): one of them exports with the other's page
+		return "backslash-title-wrong-page"
 	}
 	if dup && sameButPages(in, out) {
 		// a bookmark with a duplicate title exports with the page of another bookmark of that title
@@ -839,7 +851,7 @@ func implRead(pc, maxd int, items []gItem, first int) string {
 }
 
 func readCases(r *vh.Run) {
-	n := r.Pick(700, 12000)
+	n := r.Pick(700, 8000)
 	for i := 0; i < n; i++ {
 		pc := 1 + r.Rand.Intn(5)
 		start := 3 + 2*pc
@@ -849,11 +861,11 @@ func readCases(r *vh.Run) {
 		if shape == 2 || r.Rand.Intn(4) == 0 {
 			maxd = 1 + r.Rand.Intn(4)
 		}
-		res, ok := withTimeout(20*time.Second, func() string { return implRead(pc, maxd, items, first) })
+		res, ok := withTimeout(10*time.Second, func() string { return implRead(pc, maxd, items, first) })
 		in := map[string]any{"pages": pc, "maxdepth": maxd, "first": first, "graph": graphWire(items)}
 		if !ok {
-			r.OracleFail("export-hangs", in, "pdfcpu.Bookmarks did not return within 20s")
-			continue
+			r.OracleFail("export-hangs", in, "pdfcpu.Bookmarks did not return within 10s")
+			hang(r)
 		}
 		r.Case("read", []string{vh.Int(int64(maxd)), fmt.Sprintf("%x", first), graphWire(items)}, res)
 		r.Count(fmt.Sprintf("read-shape:%d", shape))
@@ -871,7 +883,7 @@ func readCases(r *vh.Run) {
 				extra = append(extra, rawObj{g.id, g.raw(pc)})
 			}
 			pdf := makePDF(pc, fmt.Sprintf("/Outlines %d 0 R", start), extra)
-			res, ok := withTimeout(30*time.Second, func() string {
+			res, ok := withTimeout(15*time.Second, func() string {
 				bms, _, err := exportJSON(pdf)
 				if err != nil {
 					return "err"
@@ -879,8 +891,8 @@ func readCases(r *vh.Run) {
 				return fmt.Sprintf("ok:%d", countNodes(bms))
 			})
 			if !ok {
-				r.OracleFail("export-hangs", map[string]any{"pdf": vh.Hex(pdf)}, "api.ExportBookmarksJSON did not return within 30s")
-				continue
+				r.OracleFail("export-hangs", map[string]any{"pdf": vh.Hex(pdf)}, "api.ExportBookmarksJSON did not return within 15s")
+				hang(r)
 			}
 			r.Count("rawfile-result:" + strings.SplitN(res, ":", 2)[0])
 			if strings.HasPrefix(res, "PANIC") {
@@ -890,6 +902,13 @@ func readCases(r *vh.Run) {
 			}
 		}
 	}
+}
+
+// hang: the looping goroutine cannot be stopped and keeps allocating; the failing input is
+// recorded, so finish the run at once.
+func hang(r *vh.Run) {
+	r.Finish()
+	os.Exit(0)
 }
 
 // ---------------------------------------------------------------- fixed cases
@@ -963,7 +982,7 @@ func main() {
 		}
 	}
 
-	n := r.Pick(260, 6000)
+	n := r.Pick(260, 3000)
 	for i := 0; i < n; i++ {
 		pc := 1 + r.Rand.Intn(8)
 		mode := []int{0, 0, 0, 1, 2, 3}[r.Rand.Intn(6)]
